@@ -70,7 +70,7 @@ def e2(tier):
 
     def report(name, enc, model, with_prefix):
         rows = [smt.model_row(model, r) for r in enc.rows]
-        rows = [[_unescape(r[1]), _unescape(r[2]), r[3], r[4], r[5]] for r in rows if r[0]]
+        rows = [[_unescape(r[1]), _unescape(r[2]), r[3], r[4], r[5], r[6]] for r in rows if r[0]]
         m = _unescape(model.eval(enc.M, model_completion=True).as_string())
         p = _unescape(model.eval(enc.P, model_completion=True).as_string()) if with_prefix else None
         n = model.eval(enc.n, model_completion=True).as_long()
